@@ -362,6 +362,52 @@ theorem staged_replies_leave_before_slow_path (evs : List WEv) :
       rw [hf]
       simpa [Worker.run, Worker.step, List.append_assoc] using this
 
+/-- **A refused destination in a burst costs nobody a second reply**: for
+every pattern of refused destinations, after the partial sendmmsg and its
+one-by-one fallback each live client has received exactly one datagram (and
+a refused one none). -/
+theorem partial_batch_sends_each_once (refused : List Bool) :
+    sendGroup refused = refused.map (fun r => if r then 0 else 1) := by
+  induction refused with
+  | nil => rfl
+  | cons r rs ih =>
+    cases r with
+    | true => simp [sendGroup]
+    | false =>
+      have : sendGroup (false :: rs) = 1 :: sendGroup rs := by
+        simp [sendGroup, List.takeWhile_cons]
+      rw [this, ih]; rfl
+
+/-! ## ingress: the budget starts when the packet arrives -/
+
+/-- **Queueing never extends the budget.**  On every raw entry — ring,
+overflow, TCP frame, inline pass and its replay, wire-born or decoded
+fallback alike — the request's deadline is `arrival + QueryTimeout`,
+independent of when a worker picks the job up; so a request that ends by its
+deadline is answered within QueryTimeout of its arrival. -/
+theorem deadline_anchored_at_arrival (i : Ingress) (hi : i ≠ .msg) (strictEligible : Bool)
+    (readTime pickup pickup' qto : Nat) :
+    ingressDeadline i strictEligible readTime pickup qto = readTime + qto ∧
+    ingressDeadline i strictEligible readTime pickup qto = ingressDeadline i (!strictEligible) readTime pickup' qto := by
+  cases i <;> simp_all [ingressDeadline]
+
+/-- a job picked up after its budget ran out is not served (it is the KNOWN
+finding of notes/C11.md that it is then dropped without a SERVFAIL) -/
+theorem expired_at_pickup_not_served (i : Ingress) (hi : i ≠ .msg) (e : Bool) (readTime pickup qto : Nat) :
+    ingressServes i e readTime pickup qto = true ↔ pickup < readTime + qto := by
+  cases i <;> first
+    | exact absurd rfl hi
+    | exact decide_eq_true_iff
+
+/-- a write the connection makes with a slab in hand is always given a fresh
+`tcpWriteWait` from now: a stale per-frame deadline (already in the past after
+a long resolution) can never make the reply's own write fail at once. -/
+theorem write_deadline_is_fresh (prev : Option Nat) (now writeWait : Nat) (h : 0 < writeWait) :
+    now < beforeWrite prev now writeWait ∧ beforeWrite prev now writeWait = beforeWrite none now writeWait := by
+  simp [beforeWrite, h]
+
+theorem write_wait_in_tree : 0 < SdnsVerif.Gen.C11.tcp_write_wait_ms := by decide
+
 /-! ## Resolver.groupLookup: a failed leader's error stays local -/
 
 /-- **Request-local leader errors are not handed to followers.**  A caller
@@ -445,5 +491,18 @@ example :
 example : jobRun ⟨1, true, false⟩ ⟨1, false, false⟩ true = { datagrams := 1, replays := 0, releases := 1 } := by decide
 -- ordinary hand-off: one replay, its reply is the datagram
 example : jobRun ⟨0, true, false⟩ ⟨1, false, false⟩ false = { datagrams := 1, replays := 1, releases := 1 } := by decide
+
+-- refused destination in the middle of a burst: the two replies in front of it are not sent again
+example : sendGroup [false, false, true, false] = [1, 1, 0, 1] := by decide
+-- a job that waited 700 of its 1000 ms in the ready queue still ends at arrival + 1000
+example : ingressDeadline .inlineReplay false 5000 5700 1000 = 6000 ∧
+    ingressServes .replay false 5000 6001 1000 = false := by decide
+-- the per-frame deadline lies 3 s in the past when the reply is finally written
+example : beforeWrite (some 7000) 10000 2000 = 12000 := by decide
+-- expired request, late timer: exactly one SERVFAIL
+example : (procScenario 1 false (effectiveError .none true true) true).pc = .terminated .timeoutFail := by decide
+-- two quick replies staged, then a slow request: both are sent before it resolves
+example : (({} : Worker).run [.quick 1, .quick 2, .slow 3]).sent = [1, 2] ∧
+    (({} : Worker).run [.quick 1, .quick 2, .slow 3]).held = [] := by decide
 
 end SdnsVerif.Props.C11
